@@ -105,26 +105,29 @@ theorem preLen_mod8 (blocks : List Block) (ext : Option ExtI) : preLen blocks ex
 theorem parseFiles_nil (fuel : Nat) (data : Bytes) (off length free : Nat) (st : St)
     (hfuel : 2 ≤ fuel) (hd : data.drop (alignUp off 8) = tailFiles off [] free)
     (hlen : data.length = length) (hl : length = off + free) (h8 : length % 8 = 0) (hlt : length < 2 ^ 62)
-    (h24 : 24 ≤ length)
-    (htail : off + 24 < length → alignUp off 8 + 32 ≤ length) :
+    (h24 : 24 ≤ length) :
     parseFiles Hooks.none fuel data off ((length + 18446744073709551616 - 24) % 18446744073709551616) length st =
-      .ok ([], (if off + 24 < length then length - alignUp off 8 else 0), st) := by
+      .ok ([], (if off + 24 ≤ length then length - alignUp off 8 else 0), st) := by
   obtain ⟨f, rfl⟩ : ∃ f, fuel = f + 1 := ⟨fuel - 1, by omega⟩
   obtain ⟨f', rfl⟩ : ∃ f', f = f' + 1 := ⟨f - 1, by omega⟩
   have hlh : (length + 18446744073709551616 - 24) % 18446744073709551616 = length - 24 := by omega
   rw [parseFiles, hlh]
-  by_cases hc : off + 24 < length
-  · have := htail hc
-    have hal := alignUp_ge off 8 (by decide)
-    rw [if_pos (show off < length - 24 by omega), if_pos hc]
+  by_cases hc : off + 24 ≤ length
+  · have hal := alignUp_ge off 8 (by decide)
+    -- `length - 24` is a multiple of 8 at or above `off`: the aligned offset does not pass it
+    have hal2 : alignUp off 8 + 24 ≤ length := by
+      have hm := alignUp_mod off 8
+      have hlt8 := alignUp_lt off 8 (by decide)
+      omega
+    rw [if_pos (show off ≤ length - 24 by omega), if_pos hc]
     simp only [align8_eq off (by omega)]
     rw [if_neg (show ¬ data.length ≤ alignUp off 8 by omega), hd]
     have et : tailFiles off [] free = ffs (length - alignUp off 8) := by
       simp only [tailFiles, serFiles, List.nil_append, ffs, List.drop_replicate]
       have e : free - (alignUp off 8 - off) = length - alignUp off 8 := by omega
       rw [e]
-    rw [et, parseFile, fileHeader_ffs _ (by omega)]
-  · rw [if_neg (show ¬ off < length - 24 by omega), if_neg hc]
+    rw [et, parseFile, fileHeader_ffs24 _ (by omega)]
+  · rw [if_neg (show ¬ off ≤ length - 24 by omega), if_neg hc]
 
 end Fiano.Uefi
 
@@ -369,20 +372,19 @@ theorem parse_files : ∀ (fs : List FileI) (off length : Nat), wfFiles off leng
     costFiles fs ≤ fuel → st.pol = 0xFF →
     data.drop (alignUp off 8) = tailFiles off fs free → data.length = length →
     length = endFiles off fs + free → length % 8 = 0 → length < 2 ^ 62 → 24 ≤ length →
-    (endFiles off fs + 24 < length → alignUp (endFiles off fs) 8 + 32 ≤ length) →
     parseFiles Hooks.none fuel data off ((length + 18446744073709551616 - 24) % 18446744073709551616) length st =
-      .ok (treeFiles fs, (if endFiles off fs + 24 < length then length - alignUp (endFiles off fs) 8 else 0), st)
-  | [], off, length, _, fuel, data, free, st, hf, _, hd, hlen, hl, h8, hlt, h24, htail => by
-    simp only [endFiles] at hl htail ⊢
-    exact parseFiles_nil fuel data off length free st (by simpa [costFiles] using hf) hd hlen hl h8 hlt h24 htail
-  | f :: fs, off, length, h, fuel, data, free, st, hf, hp, hd, hlen, hl, h8, hlt, h24, htail => by
+      .ok (treeFiles fs, (if endFiles off fs + 24 ≤ length then length - alignUp (endFiles off fs) 8 else 0), st)
+  | [], off, length, _, fuel, data, free, st, hf, _, hd, hlen, hl, h8, hlt, h24 => by
+    simp only [endFiles] at hl ⊢
+    exact parseFiles_nil fuel data off length free st (by simpa [costFiles] using hf) hd hlen hl h8 hlt h24
+  | f :: fs, off, length, h, fuel, data, free, st, hf, hp, hd, hlen, hl, h8, hlt, h24 => by
     obtain ⟨fu, rfl, hf'⟩ := fuel_succ hf (by simp only [costFiles]; omega)
     simp only [costFiles] at hf'
     obtain ⟨hwf, hhdr, hfit, _, hrest⟩ := wfFiles_cons h
     have hal := alignUp_ge off 8 (by decide)
     have hlh : (length + 18446744073709551616 - 24) % 18446744073709551616 = length - 24 := by omega
     have hsz := sizeFile_ge f
-    rw [parseFiles, hlh, if_pos (show off < length - 24 by omega)]
+    rw [parseFiles, hlh, if_pos (show off ≤ length - 24 by omega)]
     simp only [align8_eq off (by omega)]
     rw [if_neg (show ¬ data.length ≤ alignUp off 8 by omega), hd, tailFiles_cons,
       parse_file f hwf fu _ st (by omega) hp]
@@ -396,9 +398,9 @@ theorem parse_files : ∀ (fs : List FileI) (off length : Nat), wfFiles off leng
       rw [e, ← List.drop_drop, hd, tailFiles_cons, ← List.drop_drop,
         drop_append_len _ _ _ (length_serFile f hwf)]
       rfl
-    simp only [endFiles] at hl htail ⊢
+    simp only [endFiles] at hl ⊢
     rw [← hlh, parse_files fs (alignUp off 8 + sizeFile f) length hrest fu data free st (by omega) hp hd' hlen hl h8
-      hlt h24 htail]
+      hlt h24]
     rfl
 
 theorem parse_fv : ∀ (v : FvI), wfFv v = true → ∀ (fuel : Nat) (rest : Bytes) (off : Nat) (rz : Bool) (st : St),
@@ -445,7 +447,7 @@ theorem parse_fv : ∀ (v : FvI), wfFv v = true → ∀ (fuel : Nat) (rest : Byt
         simp only [List.length_append, fvHeaderCk_length _ _ _ _ _ _ _ _ w.hzv (guid_v3_length v3)]; exact hpre
       exact drop_append_len _ _ _ hA
     rw [parse_files files (preLen blocks ext) _ w.hfiles fu _ free { st with pol := 0xFF } hf' rfl hd hlen rfl
-      w.hlen8 (by have := w.hlenlt; omega) (by have := w.hlen64; omega) w.htail]
+      w.hlen8 (by have := w.hlenlt; omega) (by have := w.hlen64; omega)]
   | .other zv g attrs rev rsv blocks body, h, fuel, rest, off, rz, st, hf, hp => by
     obtain ⟨fu, rfl, _⟩ := fuel_succ hf (by simp only [costFv]; omega)
     have w := wfFv_other h
